@@ -212,3 +212,110 @@ def prefix_for(events, k):
             break
         i += 1
     return out
+
+
+# ---------------------------------------------------------------- WAL protocol events (spec/TraceWal.tla)
+
+PAGE = 4096
+
+
+def wal_events(ops, events, max_pages=40):
+    """Abstract the shim's I/O log of a history into the actions of spec/WalDurability.tla.
+    ops: parse_iolog(); events: the history trace (Ack events carry io1 = number of I/O calls made when
+    the request was acknowledged).  Page numbers are renamed to 1..max_pages by first appearance
+    (the model is indifferent to which page is which); returns (events, stats)."""
+    acks = sorted(e["io1"] for e in events if e.get("ev") == "Ack")
+    out = []
+    rename = {}
+
+    def pg(n):
+        if n not in rename:
+            rename[n] = len(rename) % max_pages + 1
+        return rename[n]
+
+    pending_frames = []      # frames of the transaction being written: (page, commit)
+    wal_seen = False
+    ckpt_on = False
+    pend_hdr = None
+    ai = 0
+    stats = dict(frames=0, commits=0, wal_syncs=0, db_syncs=0, ckpt_writes=0, wal_resets=0, acks=0, skipped_setup=0)
+
+    def flush_txn():
+        nonlocal pending_frames
+        if not pending_frames:
+            return
+        # a page written twice inside one transaction counts once (its last image)
+        last = {}
+        for i, (p, c) in enumerate(pending_frames):
+            last[p] = i
+        pages = [p for p, _ in pending_frames if True]
+        uniq = [p for i, (p, c) in enumerate(pending_frames) if last[p] == i]
+        out.append({"a": "Begin", "pages": uniq})
+        for p in uniq:
+            out.append({"a": "WalWrite", "page": p})
+        pending_frames = []
+
+    for o in ops:
+        while ai < len(acks) and acks[ai] < o["seq"]:
+            out.append({"a": "Ack"})
+            stats["acks"] += 1
+            ai += 1
+        cls, op = o["cls"], o["op"]
+        if cls == "wal":
+            if op == "pwrite":
+                data, off = o["data"], o["off"]
+                if off == 0 and len(data) >= 32 and not (len(data) > 32 + 24):
+                    # WAL header: a new WAL generation (restart after a checkpoint)
+                    if wal_seen and any(e["a"] == "WalWrite" for e in out) and not ckpt_on:
+                        pass
+                    wal_seen = True
+                    continue
+                wal_seen = True
+                # frames: 24-byte header [pgno u32 BE][db size after commit u32 BE]... then the page
+                if len(data) == 24:
+                    pend_hdr = data
+                    continue
+                if len(data) == PAGE and pend_hdr is not None:
+                    hdr = pend_hdr
+                    pend_hdr = None
+                elif len(data) >= 24 + PAGE:
+                    hdr = data[:24]
+                else:
+                    continue
+                pgno = int.from_bytes(hdr[0:4], "big")
+                commit = int.from_bytes(hdr[4:8], "big") != 0
+                pending_frames.append((pg(pgno), commit))
+                stats["frames"] += 1
+                if commit:
+                    stats["commits"] += 1
+                    flush_txn()
+            elif op == "fsync":
+                out.append({"a": "WalSync"})
+                stats["wal_syncs"] += 1
+            elif op == "unlink" or (op == "ftruncate" and o["off"] == 0):
+                if ckpt_on or wal_seen:
+                    out.append({"a": "WalReset"})
+                    stats["wal_resets"] += 1
+                ckpt_on = False
+                wal_seen = False
+        elif cls == "db":
+            if op == "pwrite":
+                if not any(e["a"] == "WalWrite" for e in out):
+                    stats["skipped_setup"] += 1       # database creation before the first WAL transaction
+                    continue
+                if not ckpt_on:
+                    out.append({"a": "CkptBegin"})
+                    ckpt_on = True
+                n = max(1, len(o["data"]) // PAGE)
+                for i in range(n):
+                    out.append({"a": "CkptWrite", "page": pg(o["off"] // PAGE + 1 + i)})
+                    stats["ckpt_writes"] += 1
+            elif op == "fsync":
+                out.append({"a": "DbSync"})
+                stats["db_syncs"] += 1
+    while ai < len(acks):
+        out.append({"a": "Ack"})
+        stats["acks"] += 1
+        ai += 1
+    stats["pages"] = len(rename)
+    return out, stats
